@@ -330,7 +330,11 @@ class PlotData:
                             aggregated_timescales[output_name] = None  # Timescale is lost
                             continue
 
-                        units = list(set([output_units[x] for x in labels]))
+                        units = []  # Distinct units in the order of the labels (a set would make the default method below depend on hash order, and NaN units never compare equal)
+                        for x in labels:
+                            u = None if isna(output_units[x]) else output_units[x]
+                            if u not in units:
+                                units.append(u)
                         timescales = list(set([np.nan if isna(output_timescales[x]) else output_timescales[x] for x in labels]))  # Ensure that None and nan don't appear as different timescales
 
                         # Set default aggregation method depending on the units of the quantity
